@@ -198,6 +198,30 @@ def rearm1(ctx: Ctx, chk) -> None:
                 else:
                     wrong = f"removes the key {kc}"
         key = f"presentation-clears-marker@{V}"
+        # path form: from the outermost definition down to the one that removes the marker, every normal path of a
+        # node presentation (child 255) passes the removal or the delegation to the next definition
+        if ok:
+            from ..prov import truth3
+
+            assume = {"In.child_id == 255": True}
+            for f in tables.chain_defs(ctx, cal, V):
+                g_ = CFG(f.node)
+                cn = Canon(I, f)
+                rem = [x for node, key_ in sb.removal_sites(ctx, f, "internal_messages") if key_ is not None and not isinstance(key_, sb.HelperKey) and cn.canon(key_) == f"(In.node_id, In.child_id, {pv})" for x in g_.nodes_where(lambda y, node=node: y.contains(node))]
+                wrapped_params = set(f.parent.params) if f.parent is not None else set()
+                deleg = []
+                for c_ in ctx.own_nodes(f):
+                    if isinstance(c_, ast.Call) and ((isinstance(c_.func, ast.Attribute) and isinstance(c_.func.value, ast.Call) and norm(c_.func.value.func) == "super") or (isinstance(c_.func, ast.Name) and c_.func.id in wrapped_params)):
+                        deleg += g_.nodes_where(lambda y, c_=c_: y.contains(c_))
+                stop = set(rem) | set(deleg)
+                p_ = g_.reach_avoiding([g_.entry], lambda y: y is g_.exit, lambda y: y in stop, labels_skip=("exc",), from_succ=False, truth=lambda t, cn=cn: truth3(cn, t.ast, assume))
+                if p_ is not None:
+                    ok = False
+                    wrong = f"can complete in {f.qualname} without removing the outstanding-request marker and without delegating to the handler that does ({' -> '.join(g_.path_text(p_)[1:5])})"
+                    where = f.where
+                    break
+                if rem:
+                    break
         if ok:
             chk.ok(rule, key, f"removes (In.node_id, In.child_id, {pv}) before delegating", where, sample=n == 1)
         else:
